@@ -16,34 +16,25 @@ CHECKS = {
          "template fields; Maven and RubyGems orderings are not decided (no transcription built)", "§7 C02, §11"),
  "C03": ("differential against transcriptions of node-semver 7 (desugaring of every comparator to primitive bounds + prerelease admission rule), PEP 440 specifier "
          "clauses on final releases and Maven VersionRange over structured requirement templates; Cargo VersionReq is not decided", "§7 C03, §11"),
- "C04": ("every implicit panic check and loop bound on every feasible path of the text entry points of util/semver (9 systems), util/pypi and the "
-         "PyPI marker parser, inputs = all byte strings up to the stated lengths", "§7 C04, §11"),
- "C05": ("sequential clauses for all three resolvers (whole Resolve executed symbolically on skeleton universes): the client reports the same "
-         "requirements and versions in the same order after Resolve; asking again, resolving another root in between on the same resolver and "
-         "inserting the versions in the opposite order give the same graph; plus the PyPI getDependencies/matching-prereleases call sites. "
-         "Concurrent Resolve calls are not decided (the engine has no scheduler)", "§7 C05, §11"),
+ "C04": ("every implicit panic check and loop bound on every feasible path of the text entry points of util/semver (9 systems), util/pypi, the PyPI marker parser, util/resolve/schema (ParseResolve, New), the deptest/versiontest attribute parsers, resolve.MavenDepTypeToDependency and util/maven (profile activation, project keys, MergeParent+Interpolate+ProcessDependencies on a project with arbitrary-byte fields); inputs = all byte strings up to the stated lengths (grammar-alphabet bytes for the longer schema texts and row templates). Entry points built on net/mail, archive/*, encoding/xml and regexp are outside", "§7 C04, §11"),
+ "C05": ("sequential clauses for all three resolvers (whole Resolve executed symbolically on skeleton universes of both generations): the client reports the same requirements and versions in the same order after Resolve; asking again, resolving another root in between on the same resolver and inserting the versions in the opposite order give the same graph, and the other root's graph equals a fresh resolver's. Concurrency clause decided sequentially as a lockset discipline on every path of one Resolve call (state that existed before the call is written only under an exclusive lock or through sync/atomic, and read under a lock where it is written), counterexamples replayed as 8 concurrent calls under the race detector; goroutine interleavings themselves are not explored (the engine has no scheduler)", "§7 C05, §11"),
  "C06": ("graph clauses (edge satisfies requirement, every non-dev non-peer requirement resolved or reported, reachability, fresh-install choice "
          "for every node) and, through the verif-tagged hook, the install-tree clauses (tree nodes = graph nodes, no directory holds one name twice, "
          "Node's walk-up lookup lands on the edge's target) asserted on the real npm Resolve over skeleton universes (3-4 packages, <=3 versions, two "
          "requirement slots per version, optional/dev/peer/bundle-scoped kinds, aliases) with symbolic digits in versions or requirements; bundled "
          "(derived) packages are not generated", "§7 C06, §11"),
- "C07": ("unit lemmas (findMatch preference order, exclusions, root-only scopes, artifact identity) plus the real Maven Resolve over skeleton "
-         "universes with symbolic version numbers (one version per artifact, ranges respected, root-only scopes, war not traversed, management "
-         "override, nearest-wins on soft-only skeletons)", "§7 C07, §11"),
- "C08": ("unit lemmas of the PyPI resolver state (criteria, versionMap, intersect, filterSlice, copy independence) plus the real PyPI Resolve over "
-         "skeleton universes with symbolic version numbers, specifier numbers and marker thresholds (one version per package, true-marker requirements "
-         "are edges to satisfying versions, false-marker ones contribute nothing, reachability, root kept)", "§7 C08, §11"),
+ "C07": ("unit lemmas (findMatch preference order incl. one hard range among two soft requirements, exclusions, root-only scopes, artifact identity) plus the real Maven Resolve over skeleton universes with symbolic version numbers (one version per artifact, ranges respected, root-only scopes, war not traversed, management override, nearest-wins with exclusions inherited along paths against a breadth-first reference on soft-only skeletons incl. a directed diamond-with-exclusion family)", "§7 C07, §11"),
+ "C08": ("unit lemmas of the PyPI resolver state (criteria, versionMap, intersect, filterSlice, copy independence) plus the real PyPI Resolve over skeleton universes of two generations (symbolic version/specifier numbers and marker thresholds; two requirement slots per version, cycles through the root package, requested extras and extra-guarded requirements, prerelease specifiers): one version per package, root never replaced, a requirement whose marker is true for the extras requested in the final graph is an edge to a satisfying version, a false one contributes nothing, reachability", "§7 C08, §11"),
  "C09": ("membership laws of the real Union/Intersect/canon/matchVersion over constraint templates with symbolic digits (Default, NPM, Cargo, Go)", "§7 C09, §11"),
  "C10": ("Parse -> Canon -> Parse -> compare/Canon on all byte strings up to the stated length, plus same-canon-implies-equal on pairs", "§7 C10, §11"),
  "C11": ("Set.String -> ParseSetConstraint round trip (text identity and prerelease-inclusive matching) over constraint templates (Default, NPM, Cargo, Go, NuGet)", "§7 C11, §11"),
- "C12": ("exact membership against the real constraint, ascending order, latest/tag rules and independence of the input order for MatchRequirement over templated lists (NPM, Maven, PyPI)", "§7 C12, §11"),
- "C13": ("the real Graph.Canon on graphs with parameter-given structure and symbolic labels, against a renumbered and shuffled copy; idempotence and preservation clauses", "§7 C13, §11"),
- "C14": ("the real LocalClient against a map-based reference over AddVersion histories with symbolic attributes", "§7 C14, §11"),
- "C15": ("partial: interpolation terminates, leaves and reports unresolved placeholders (symbolic dictionaries incl. cycles; arbitrary bytes); property precedence lemmas. Equality with Maven's model builder is not decided", "§7 C15, §11"),
- "C16": ("ParseDependency and CanonPackageName against the decomposition known by construction of PEP 508 strings; marker parser+evaluator against a transcription of packaging's rule", "§7 C16, §11"),
- "C18": ("partial, sequential: alias split (npm:name@range) in flattenNPMDeps and the bundle mapping of npmRequirements over symbolic names and bundle trees; "
-         "the gRPC round trip and the goroutine-interleaving clauses are not decided", "§7 C18, §11"),
- "C19": ("order laws and equality characterisation of attr.Set.Compare, clone independence, versiontest text round trip", "§7 C19, §11"),
+ "C12": ("exact membership against the real constraint, exact order (ascending, unparsable npm versions last, the latest-tagged version moved last unless it is a prerelease while the list holds releases), tag selection and independence of the input order for MatchRequirement, and permutation-invariance/idempotence of SortVersions, over templated lists (NPM, Maven, PyPI)", "§7 C12, §11"),
+ "C13": ("the real Graph.Canon on graphs with parameter-given structure and symbolic labels (up to two errors per node), against a copy with renumbered nodes, rotated edges and errors recorded in the opposite order; idempotence and preservation of root, node multiset with errors, counts and edges", "§7 C13, §11"),
+ "C14": ("the real LocalClient against a map-based reference over AddVersion histories of up to 3 (thorough 4) steps with a symbolic tag (none, latest, other) and requirement types, incl. an unparsable npm version: lookups, listings in exact npm order, requirements, matching, mentioned packages, not-found", "§7 C14, §11"),
+ "C15": ("partial: interpolation terminates, leaves and reports unresolved placeholders (symbolic dictionaries incl. cycles; arbitrary bytes); precedence lemmas (child over parent, explicit over un-prefixed built-ins, prefixed built-ins over explicit properties, dependencyManagement imports depth-first in declaration order with first declaration winning). Equality with Maven's model builder is not decided", "§7 C15, §11"),
+ "C16": ("ParseDependency and CanonPackageName against the decomposition known by construction of PEP 508 strings; marker parser+evaluator against a transcription of packaging's rule (variable x operator x literal incl. v-prefixed versions, literal or extra on either side, and/or/parentheses)", "§7 C16, §11"),
+ "C18": ("partial, sequential: alias split (npm:name@range) in flattenNPMDeps, several dependencies across the four sections plus bundleDependencies each keeping its own name, range, section and alias, and the bundle mapping of npmRequirements over symbolic names and bundle trees (depth <= 3, bundles installed under an alias); the gRPC round trip and the goroutine-interleaving clauses are not decided", "§7 C18, §11"),
+ "C19": ("order laws and equality characterisation of attr.Set.Compare, clone independence, versiontest text round trip (incl. values that spell attribute key names)", "§7 C19, §11"),
 }
 
 NA = [
